@@ -81,6 +81,12 @@ def run (fails : Nat → Bool) : St → List Op → Option St
     | none => none
     | some s' => run fails s' os
 
+/-- number of `fire` calls in a schedule -/
+def fires : List Op → Nat
+  | [] => 0
+  | .fire _ :: os => fires os + 1
+  | .handle :: os => fires os
+
 /-- events up to and including the first failing one -/
 def uptoFirstFailure (fails : Nat → Bool) : List Nat → List Nat
   | [] => []
